@@ -753,8 +753,9 @@ class URL:
         """
         if (raw := self.raw_host) is None:
             return None
-        if raw and raw[-1].isdigit() or ":" in raw:
-            # IP addresses are never IDNA encoded
+        if ":" in raw or (raw and raw[-1].isdigit() and "xn--" not in raw):
+            # IP addresses are never IDNA encoded; a name that merely
+            # ends with a digit may still contain IDNA labels
             return raw
         return _idna_decode(raw)
 
